@@ -12,6 +12,7 @@ stay in step and each call removes one arc.
 -/
 namespace Dsw.Tie
 open Dsw Dsw.Py
+open SwCor RepCor GraphCor
 
 /-- what a returning call of the generated code returned, in model terms. -/
 theorem gen_C19_returns (k : Nat) (a : Acc) (lm : LMap) (ins del vb : Bool) (fuel it : Nat) (v : PV)
